@@ -11,6 +11,7 @@ TSAN_ENV = {
 _G = ['-g', '-fno-omit-frame-pointer']
 VARIANTS = {
     'plain':      dict(cc='g++', flags=['-std=c++11', '-O2'] + _G),
+    'clang-plain': dict(cc='clang++', flags=['-std=c++11', '-O2'] + _G),
     'plain20':    dict(cc='g++', flags=['-std=c++20', '-O2'] + _G),
     'plain17':    dict(cc='g++', flags=['-std=c++17', '-O2'] + _G),
     'asan':       dict(cc='g++', flags=['-std=c++11', '-O1', '-fsanitize=address,undefined', '-fno-sanitize-recover=all'] + _G, env=ASAN_ENV),
@@ -101,6 +102,7 @@ CHECKS['C03'] = dict(
     jobs=[J('drv_cblist_mt', 'plain', '', 40000, 600000, shards=8, shards_thorough=16),
           J('drv_cblist_mt', 'tsan', '', 2400, 40000, seed_offset=1, shards=8, shards_thorough=16),
           J('drv_cblist_mt', 'clang-tsan', '', 2400, 40000, seed_offset=4, shards=8, shards_thorough=16),
+          J('drv_cblist_mt', 'clang-plain', '', 12000, 200000, seed_offset=5, shards=8, shards_thorough=16),
           J('drv_cblist_mt', 'asan', '', 6000, 60000, seed_offset=2, shards=8, shards_thorough=16),
           J('drv_fault', 'asan17-fault', '', 540, 9000, defs=['-DVF_CFG_MASK=0x03'], seed_offset=3, shards=4, shards_thorough=8),
           J('drv_fault', 'asan17-fault', '', 540, 9000, defs=['-DVF_CFG_MASK=0x0c'], seed_offset=3, shards=4, shards_thorough=8)],
@@ -390,9 +392,11 @@ CHECKS['C19'] = dict(
     level='exploration',
     rule='C01/C02/C10 histories in which the generation counter is placed 0..40 steps before 2^32 (guarded hook) at random points - idle, inside '
          'callbacks of running nested invocations, around copy/move/swap - and the history continues; invocations in progress at an observed wrap '
-         'are relaxed exactly as stated, all others strict; non-trivial = >=1 remove and >=1 invocation; distinct = trace hash',
+         'are relaxed exactly as stated, all others strict; the wrap is also crossed while several threads add, remove and invoke (the concurrent histories of C03, every one started just before the wrap, g++ and clang++ builds: a callback present for the whole duration of an invocation must be visited by it); non-trivial = >=1 remove and >=1 invocation; distinct = trace hash',
     jobs=JS('drv_cblist', 'asan', 'c19', 12000, 200000, M4, shards=4) + JS('drv_cblist', 'plain', 'c19', 32000, 600000, M4, seed_offset=1, shards=4)
-         + JS('drv_cblist', 'clang-asan', 'c19', 6000, 100000, M4, seed_offset=2, shards=4),
+         + JS('drv_cblist', 'clang-asan', 'c19', 6000, 100000, M4, seed_offset=2, shards=4)
+         + [J('drv_cblist_mt', 'plain', '', 6000, 100000, opts={'nearwrap': '1'}, seed_offset=3, shards=8, shards_thorough=16),
+            J('drv_cblist_mt', 'clang-plain', '', 6000, 100000, opts={'nearwrap': '1'}, seed_offset=4, shards=8, shards_thorough=16)],
     assumptions=['the wrap is observed by reading the real counter through the guarded friend hook'],
     technique='runtime monitor with guarded counter-placement hook: histories continue across an observed 2^32 wrap; relaxed frames for in-progress invocations only',
     level_text='Exploration: the generation counter is placed 0..40 additions before 2^32 at random points (idle, inside callbacks, around copy/move/swap); thousands of real wraps are '
